@@ -1,5 +1,5 @@
 import Comdex.Base.Line
-import Comdex.Model.AmmTick
+import Comdex.Model.AmmPool
 /-! Driver for the batch-matching model (property C05).
 
 Lines (tab separated, after the sequence number):
@@ -21,6 +21,10 @@ Lines (tab separated, after the sequence number):
         real MakeView: HighestBuyPrice, LowestSellPrice, BuyAmountOver(price,true), SellAmountUnder(price,true)
   amm.tk <fn> <prec> <arg> <result>                 tick.go primitives: down (PriceToDownTick), up (UpTick), ptup (PriceToUpTick),
         dn (DownTick), toidx (TickToIndex), fromidx (TickFromIndex), round (RoundPrice), hi (HighestTick), lo (LowestTick)
+  amm.pool <rx> <ry> <lowest> <highest> <prec> <buys> <sells>
+        real PoolBuyOrders / PoolSellOrders(NewBasicPool(rx, ry), DefaultOrderer, lowest, highest, prec); lists `price:amount,…`
+        monitors pool_within_reserves / pool_not_worse_than_curve on the REAL lists
+  amm.bp <fn> <rx> <ry> <price> <result|panic>      BasicPool: price, bo (BuyAmountOver), su (SellAmountUnder), bt (BuyAmountTo), st (SellAmountTo)
 results := `id:open:paid:received:matched` joined by `;`, every order of the sequence, ascending id.
 Prices are Dec raws.  After every op the model continues from the REAL resulting order states.
 
@@ -216,6 +220,38 @@ def handle (st : St) (seq : String) (f : List String) : St × List String :=
       let m := s!"{sh v.highestBuyPrice}\t{sh v.lowestSellPrice}\t{v.buyAmountOver price}\t{v.sellAmountUnder price}"
       let r := s!"{hb}\t{ls}\t{bo}\t{su}"
       (st, if m = r then [] else [s!"DIFF\t{seq}\tmodel={m}\timpl={r}"])
+  | ["amm.pool", rx, ry, lo, hi, prec, buys, sells] =>
+    match parseInt? rx, parseInt? ry, parseInt? lo, parseInt? hi, parseNat? prec with
+    | some rx, some ry, some lo, some hi, some prec =>
+      let sh := fun (l : List (Int × Int)) => ",".intercalate (l.map fun pa => s!"{pa.1}:{pa.2}")
+      let pl : BPool := ⟨rx, ry⟩
+      let m := s!"{sh (poolBuyOrders pl lo hi prec)}\t{sh (poolSellOrders pl lo hi prec)}"
+      let r := s!"{buys}\t{sells}"
+      let d := if m = r then [] else [s!"DIFF\t{seq}\tmodel={m}\timpl={r}"]
+      let parse := fun (t : String) => if t = "" then some [] else
+        (t.splitOn ",").mapM fun x => match x.splitOn ":" with
+          | [a, b] => do let a ← parseInt? a; let b ← parseInt? b; pure (a, b)
+          | _ => none
+      match parse buys, parse sells with
+      | some bl, some sl =>
+        let m1 := if monPoolBuys pl bl && monPoolSells pl sl then [] else [s!"MON\t{seq}\tpool_within_reserves_and_curve"]
+        (st, d ++ m1)
+      | _, _ => (st, [s!"BAD\t{seq}\tpool lists"])
+    | _, _, _, _, _ => (st, [s!"BAD\t{seq}\tpool"])
+  | ["amm.bp", fn, rx, ry, price, r] =>
+    match parseInt? rx, parseInt? ry, parseInt? price with
+    | some rx, some ry, some price =>
+      let pl : BPool := ⟨rx, ry⟩
+      let m : Option Int :=
+        if fn = "price" then pl.price
+        else if fn = "bo" then pl.buyAmountOver price
+        else if fn = "su" then pl.sellAmountUnder price
+        else if fn = "bt" then pl.buyAmountTo price
+        else if fn = "st" then pl.sellAmountTo price
+        else none
+      let ms := match m with | none => "panic" | some a => toString a
+      (st, if ms = r then [] else [s!"DIFF\t{seq}\tbp {fn} {rx} {ry} {price}\tmodel={ms}\timpl={r}"])
+    | _, _, _ => (st, [s!"BAD\t{seq}\tbp"])
   | ["amm.tk", fn, prec, arg, r] =>
     match parseNat? prec, parseInt? arg with
     | some prec, some a =>
